@@ -114,7 +114,7 @@ fn step_body(kind: u8, own: usize, d: [u8; N], allow: u8) -> usize {
         install(&mut st, &fx, i, &held[i]);
         i += 1;
     }
-    install_totals(&mut st, &t0);
+    install_totals_held(&mut st, &t0, &held);
     if pre.notar {
         st.add_cert(dummy_vote_cert(&fx, 0, notar_cert_hash));
     }
@@ -205,9 +205,19 @@ fn cov_none(n: usize) {
     vcover!(n == 0, "no certificate is created");
 }
 
+/// Stub for `SlotState::check_safe_to_notar` (Kani only): the safe-to-notar evaluation a notar vote
+/// triggers is C06's subject (`c06_kernel_s2n`) and has no influence on certificate creation; left in,
+/// its guard `!sent_safe_to_notar.contains(..)` is not syntactically constant for CBMC and the whole
+/// evaluation is executed symbolically (measured: > 1200 s of symbolic execution for one notar vote).
+#[cfg(kani)]
+pub(crate) fn s2n_cut(_this: &mut SlotState, _hash: BlockHash) -> SafeToNotarStatus {
+    SafeToNotarStatus::AwaitingVotes
+}
+
 macro_rules! h {
     ($name:ident, $kind:literal, $own:literal, $d:expr, $allow:literal, $cov:ident) => {
         #[cfg_attr(kani, kani::proof)]
+        #[cfg_attr(kani, kani::stub(crate::consensus::pool::slot_state::SlotState::check_safe_to_notar, crate::consensus::pool::slot_state::kani_c03::s2n_cut))]
         #[cfg_attr(kani, kani::stub(crate::crypto::aggsig::SecretKey::sign, crate::consensus::kani_fix::sign_stub))]
         #[cfg_attr(kani, kani::stub(crate::consensus::cert::NotarCert::new, crate::consensus::cert::kani_certstub::notar_new_stub))]
         #[cfg_attr(kani, kani::stub(crate::consensus::cert::NotarFallbackCert::new, crate::consensus::cert::kani_certstub::nfallback_new_stub))]
@@ -271,3 +281,152 @@ h!(c03_p_final_01_zz, 4, 1, [0, 1], 0, cov_none);
 h!(c03_pown_notar_01_no, 0, 0, [0, 1], 1, cov_created);
 h!(c03_pown_skip_01_sk, 2, 0, [0, 1], 4, cov_created);
 // GENERATED-END
+
+// ---------------------------------------------------------------------------------------------
+// Threshold kernel for notar / notar-fallback votes (`c03_nthr_*`).
+//
+// The full step harness above does not fit for these two kinds (collecting the stored votes of
+// both blocks into three certificate inputs: 1.2 M steps, memory cap).  Here the running totals
+// the real code keeps are symbolic and *decoupled* from the stored votes: only the voter's new
+// vote is stored (so every collector returns at most that vote), the per-block notar and
+// notar-fallback counters of both blocks are arbitrary 16-bit values, and which certificates are
+// already present is arbitrary within "a certificate whose threshold the counters reach is
+// present".  One real `add_vote` of a notar (KIND 0) or notar-fallback (KIND 1) vote for block A
+// must then create exactly the certificate types whose threshold is reached *including the new
+// stake* and that are not present yet - notar + notar-fallback of the SAME block combined, per
+// block for notar-fallback, per slot for notarization and fast-finalization - and update the
+// counters.  Signer sets are not the subject here (skip / final step harnesses, c03_trynew_*);
+// the stubs' "votes must not be empty" assertion still sees whether the new vote was stored
+// before counting.
+// ---------------------------------------------------------------------------------------------
+fn nthr_body<const KIND: u8, const NF_A: bool, const NF_B: bool, const HAS_NOTAR: bool, const HAS_FF: bool>() -> (usize, bool) {
+    let total = vs::any_u16() as u64;
+    let stake = vs::any_u16() as u64;
+    let (n_a, n_b, f_a, f_b) = (vs::any_u16() as u64, vs::any_u16() as u64, vs::any_u16() as u64, vs::any_u16() as u64);
+    vs::assume(total > 0 && stake <= total);
+    // the voter has not yet voted in this class: its stake is not in the counters of the class
+    vs::assume(n_a + n_b + if KIND == 0 { stake } else { 0 } <= total);
+    vs::assume(f_a + if KIND == 1 { stake } else { 0 } <= total && f_b <= total);
+    let t = Totals { notar: [0, n_a, n_b], nf: [0, f_a, f_b], skip: 0, sf: 0, fin: 0, total };
+    // "as soon as": a certificate whose threshold the counters reach is already there
+    if !HAS_NOTAR {
+        vs::assume(!t.reaches(n_a, 3) && !t.reaches(n_b, 3));
+    }
+    if !HAS_FF {
+        vs::assume(!t.reaches(n_a, 4) && !t.reaches(n_b, 4));
+    }
+    if !NF_A {
+        vs::assume(!t.reaches(n_a + f_a, 3));
+    }
+    if !NF_B {
+        vs::assume(!t.reaches(n_b + f_b, 3));
+    }
+    let notar_cert_hash = 1 + vs::any_below(2);
+
+    let stakes: [u64; N] = [stake, total - stake];
+    let fx = fixture(&stakes, 1);
+    let mut st = SlotState::new(Slot::new(SLOT), fx.epoch.clone());
+    // counters of both blocks exist (a zero-stake voter leaves a zero counter behind)
+    *st.voted_stakes.notar.get_or_insert_with(&block_hash(1), Stake::default) = Stake::new(n_a);
+    *st.voted_stakes.notar.get_or_insert_with(&block_hash(2), Stake::default) = Stake::new(n_b);
+    *st.voted_stakes.notar_fallback.get_or_insert_with(&block_hash(1), Stake::default) = Stake::new(f_a);
+    *st.voted_stakes.notar_fallback.get_or_insert_with(&block_hash(2), Stake::default) = Stake::new(f_b);
+    st.voted_stakes.notar_or_skip = Stake::new(n_a + n_b);
+    st.voted_stakes.top_notar = Stake::new(if n_a > n_b { n_a } else { n_b });
+    if HAS_NOTAR {
+        st.add_cert(dummy_vote_cert(&fx, 0, notar_cert_hash));
+    }
+    if NF_A {
+        st.add_cert(dummy_vote_cert(&fx, 1, 1));
+    }
+    if NF_B {
+        st.add_cert(dummy_vote_cert(&fx, 1, 2));
+    }
+    if HAS_FF {
+        st.add_cert(dummy_vote_cert(&fx, 3, notar_cert_hash));
+    }
+    st.add_cert(dummy_vote_cert(&fx, 2, 0));
+    st.add_cert(dummy_vote_cert(&fx, 4, 0));
+    st.sent_safe_to_notar.insert(block_hash(1));
+    st.sent_safe_to_notar.insert(block_hash(2));
+    st.sent_safe_to_skip = true;
+
+    let (certs, _events, _repairs) = st.add_vote(mk_vote(&fx, 0, KIND, 1), Stake::new(stake));
+
+    let n_a1 = n_a + if KIND == 0 { stake } else { 0 };
+    let f_a1 = f_a + if KIND == 1 { stake } else { 0 };
+    let want_nf = t.reaches(n_a1 + f_a1, 3) && !NF_A;
+    let want_notar = KIND == 0 && t.reaches(n_a1, 3) && !HAS_NOTAR;
+    let want_ff = KIND == 0 && t.reaches(n_a1, 4) && !HAS_FF;
+    let mut seen = [0u8; 5];
+    for c in certs.iter() {
+        let v: CertView = view(c);
+        seen[v.kind as usize] += 1;
+        vcheck!(v.slot == Slot::new(SLOT), "certificate for the wrong slot");
+        if v.kind == 0 || v.kind == 1 || v.kind == 3 {
+            vcheck!(v.hash == Some(block_hash(1)), "certificate for the wrong block");
+        }
+    }
+    vcheck!(seen[1] == want_nf as u8, "notar-fallback certificate missing, unjustified or duplicated");
+    vcheck!(seen[0] == want_notar as u8, "notarization certificate missing, unjustified or duplicated");
+    vcheck!(seen[3] == want_ff as u8, "fast-finalization certificate missing, unjustified or duplicated");
+    vcheck!(seen[2] == 0 && seen[4] == 0, "skip / finalization certificate created by a notar(-fallback) vote");
+    // counters after the step
+    vcheck!(st.voted_stakes.notar.get(&block_hash(1)).copied() == Some(Stake::new(n_a1)) && st.voted_stakes.notar.get(&block_hash(2)).copied() == Some(Stake::new(n_b)), "notar stake counters wrong after the vote");
+    vcheck!(st.voted_stakes.notar_fallback.get(&block_hash(1)).copied() == Some(Stake::new(f_a1)) && st.voted_stakes.notar_fallback.get(&block_hash(2)).copied() == Some(Stake::new(f_b)), "notar-fallback stake counters wrong after the vote");
+    let nos1 = n_a1 + n_b;
+    let top1 = if n_a1 > n_b { n_a1 } else { n_b };
+    vcheck!(st.voted_stakes.notar_or_skip == Stake::new(nos1) && st.voted_stakes.top_notar == Stake::new(top1), "notar-or-skip / top-notar totals wrong after the vote");
+    let n_created = certs.len();
+    let other_block_ahead = n_b > n_a1;
+    std::mem::forget(st);
+    std::mem::forget(fx);
+    std::mem::forget(certs);
+    std::mem::forget(_events);
+    std::mem::forget(_repairs);
+    (n_created, other_block_ahead)
+}
+fn nthr_cov_behind(r: (usize, bool)) {
+    vcover!(r.0 > 0, "a certificate is created");
+    vcover!(r.0 > 0 && r.1, "a certificate is created while the competing block holds more notar stake");
+    vcover!(r.0 == 0, "no certificate is created");
+}
+fn nthr_cov_created(r: (usize, bool)) {
+    vcover!(r.0 > 0, "a certificate is created");
+    vcover!(r.0 == 0, "no certificate is created");
+}
+fn nthr_cov_none(r: (usize, bool)) {
+    vcover!(r.0 == 0 && r.1, "no certificate is created, the competing block holds more notar stake");
+    vcover!(r.0 == 0 && !r.1, "no certificate is created");
+}
+macro_rules! nthr {
+    ($name:ident, $kind:literal, $nfa:literal, $nfb:literal, $no:literal, $ff:literal, $cov:ident) => {
+        #[cfg_attr(kani, kani::proof)]
+        #[cfg_attr(kani, kani::stub(crate::consensus::pool::slot_state::SlotState::check_safe_to_notar, crate::consensus::pool::slot_state::kani_c03::s2n_cut))]
+        #[cfg_attr(kani, kani::stub(crate::crypto::aggsig::SecretKey::sign, crate::consensus::kani_fix::sign_stub))]
+        #[cfg_attr(kani, kani::stub(crate::consensus::cert::NotarCert::new, crate::consensus::cert::kani_certstub::notar_new_stub))]
+        #[cfg_attr(kani, kani::stub(crate::consensus::cert::NotarFallbackCert::new, crate::consensus::cert::kani_certstub::nfallback_new_stub))]
+        #[cfg_attr(kani, kani::stub(crate::consensus::cert::SkipCert::new, crate::consensus::cert::kani_certstub::skip_new_stub))]
+        #[cfg_attr(kani, kani::stub(crate::consensus::cert::FastFinalCert::new, crate::consensus::cert::kani_certstub::fastfinal_new_stub))]
+        #[cfg_attr(kani, kani::stub(crate::consensus::cert::FinalCert::new, crate::consensus::cert::kani_certstub::final_new_stub))]
+        #[cfg_attr(kani, kani::unwind(6))]
+        #[cfg_attr(verif_replay, test)]
+        fn $name() {
+            $cov(nthr_body::<$kind, $nfa, $nfb, $no, $ff>())
+        }
+    };
+}
+// notar vote for A; name: n|f (vote kind) _ <nf cert of A><nf cert of B><notar cert><fast-final cert> (0 absent, 1 present)
+nthr!(c03_nthr_n_0000, 0, false, false, false, false, nthr_cov_behind);
+nthr!(c03_nthr_n_0100, 0, false, true, false, false, nthr_cov_behind);
+nthr!(c03_nthr_n_0110, 0, false, true, true, false, nthr_cov_behind);
+nthr!(c03_nthr_n_1010, 0, true, false, true, false, nthr_cov_created);
+nthr!(c03_nthr_n_1110, 0, true, true, true, false, nthr_cov_created);
+nthr!(c03_nthr_n_1111, 0, true, true, true, true, nthr_cov_none);
+nthr!(c03_nthr_n_1001, 0, true, false, false, true, nthr_cov_created);
+nthr!(c03_nthr_n_1100, 0, true, true, false, false, nthr_cov_created);
+// notar-fallback vote for A
+nthr!(c03_nthr_f_0000, 1, false, false, false, false, nthr_cov_behind);
+nthr!(c03_nthr_f_0100, 1, false, true, false, false, nthr_cov_behind);
+nthr!(c03_nthr_f_0110, 1, false, true, true, false, nthr_cov_behind);
+nthr!(c03_nthr_f_1110, 1, true, true, true, true, nthr_cov_none);
